@@ -83,7 +83,7 @@ pub fn run(args: &[String]) {
     let special = [1usize, 2, 7, 12, 64, 97, 128, 360, 719, 1009, 1024, 1234, 4096];
     for i in 0..count {
         let n = if i < special.len() { special[i].min(maxn) } else { 1 + rng.below(maxn as u64) as usize };
-        let kind = Kind::ALL[i % 4];
+        let kinds = avail(); let kind = kinds[i % kinds.len()];
         let dir = if rng.below(2) == 0 { FftDirection::Forward } else { FftDirection::Inverse };
         if (i / 4) % 2 == 0 {
             one::<f32>(kind, n, dir, rounds, &mut rng, &mut rep);
